@@ -5,6 +5,7 @@ import (
 	"fmt"
 	"math"
 	"sync"
+	"unicode/utf8"
 
 	"github.com/taurusgroup/multi-party-sig/internal/types"
 	"github.com/taurusgroup/multi-party-sig/pkg/hash"
@@ -50,6 +51,10 @@ func NewSession(info Info, sessionID []byte, pl *pool.Pool, auxInfo ...hash.Writ
 	for _, id := range partyIDs {
 		if id == "" {
 			return nil, errors.New("session: empty party ID")
+		}
+		// IDs travel as text in protocol.Message, which can only carry valid UTF-8
+		if !utf8.ValidString(string(id)) {
+			return nil, fmt.Errorf("session: party ID %q is not valid UTF-8", string(id))
 		}
 		if info.Group != nil && id.Scalar(info.Group).IsZero() {
 			return nil, fmt.Errorf("session: party ID %q maps to the zero scalar", string(id))
